@@ -1708,6 +1708,51 @@ def q_registration_extends(o, tier):
             'functions': ['watchtower_plugin::wt_client::WTClient::add_update_tower']}
 
 
+def q_monitor_polls_always(o, tier):
+    """C12.M4: ChainMonitor::monitor_chain. Every iteration of the monitoring loop - the first one and every one after a sleep
+    that was not ended by the shutdown signal - calls poll_best_tip before it sleeps again, on every path (in particular
+    whatever the reachable flag says): a successful poll is the only thing that raises the flag and wakes the Carrier, so a
+    loop that can skip the poll can leave the tower "unavailable" for ever after an outage that has ended."""
+    funcs, idx, t_mir, err = load_mir('teos')
+    if funcs is None:
+        return {'verdict': 'inconclusive', 'reason': 'MIR dump failed'}
+    n = [x for x in funcs if re.match(r'^chain_monitor::<impl at .*?>::monitor_chain::\{closure#0\}$', x)]
+    if len(n) != 1:
+        return {'verdict': 'inconclusive', 'reason': 'monitor_chain not found'}
+    f = funcs[n[0]]
+    sleep = r'^(?:tokio::time::)?timeout::<|^(?:tokio::time::)?sleep'
+    starts = []
+    b0 = f.blocks[min(f.blocks, key=lambda x: int(x[2:]))]
+    if b0.term['kind'] == 'switch':
+        starts += [tg for v, tg in b0.term['targets'] if v == '0']
+    for b in f.blocks.values():
+        if b.term['kind'] == 'call' and re.search(r'Result::<\(\), .*Elapsed>::is_ok$', b.term['callee']) and b.term['next']:
+            nb = f.blocks[b.term['next']]
+            if nb.term['kind'] == 'switch':
+                starts += [tg for v, tg in nb.term['targets'] if v == '0']      # the sleep elapsed: next iteration
+    if len(starts) < 2:
+        return {'verdict': 'inconclusive', 'reason': 'loop entry points not found (%d)' % len(starts)}
+    rows = []
+    for st in starts:
+        r = enum_paths(f, st, sleep)
+        if r is None:
+            return {'verdict': 'inconclusive', 'reason': 'path explosion'}
+        rows += [x for x in r if x[-1][0] == 'stop']
+    polls = lambda r: any(e[0] == 'call' and e[1].endswith('::poll_best_tip') for e in r)
+    if not rows or not any(polls(r) for r in rows):
+        return {'verdict': 'inconclusive', 'reason': 'vacuous: %d paths to the sleep' % len(rows)}
+    v, i, dt, out = _exists(rows, lambda r: not polls(r), 'skip')
+    if v == 'inconclusive':
+        return {'verdict': 'inconclusive', 'reason': out[:200]}
+    failed = []
+    if v == 'sat':
+        failed.append({'description': 'the monitoring loop can go to sleep again without having polled the node in that iteration: after an outage nothing raises the reachable flag or wakes the Carrier any more',
+                       'function': 'ChainMonitor::monitor_chain', 'schedule': [list(e) for e in rows[i] if e[0] in ('call', 'branch')][:12]})
+    return {'verdict': 'fails' if failed else 'holds', 'failed': failed, 'queries': 1, 'solver_s': dt,
+            'witness': {'iterations_entry_points': len(starts), 'paths_to_sleep': len(rows)},
+            'functions': ['teos::chain_monitor::ChainMonitor::monitor_chain']}
+
+
 def q_retry_data_kept(o, tier):
     """C13.M5: RetryManager::manage_retry, one received message (tower_id, data). Every path from the reception back to the
     next reception either (a) finds the tower abandoned (contains_key false), (b) hands the data to
@@ -2150,6 +2195,7 @@ QUERIES = {
     'retrier_end_state': q_retrier_end_state,
     'retrier_start_status': q_retrier_start_status,
     'registration_extends': q_registration_extends,
+    'monitor_polls_always': q_monitor_polls_always,
 }
 
 
